@@ -218,3 +218,37 @@ func RetValue(ret *ssa.Return, idx int) ssa.Value {
 	}
 	return Unspill(ret, ret.Results[idx])
 }
+
+// MustPassBefore reports whether every path from the function entry to target
+// executes at least one of the barrier instructions first.
+func MustPassBefore(fn *ssa.Function, target ssa.Instruction, barriers []ssa.Instruction) bool {
+	isB := map[ssa.Instruction]bool{}
+	for _, b := range barriers {
+		isB[b] = true
+	}
+	// walk blocks from entry; a block is cut at its first barrier
+	seen := map[*ssa.BasicBlock]bool{}
+	queue := []*ssa.BasicBlock{fn.Blocks[0]}
+	for len(queue) > 0 {
+		b := queue[0]
+		queue = queue[1:]
+		if seen[b] {
+			continue
+		}
+		seen[b] = true
+		cut := false
+		for _, in := range b.Instrs {
+			if in == target {
+				return false
+			}
+			if isB[in] {
+				cut = true
+				break
+			}
+		}
+		if !cut {
+			queue = append(queue, b.Succs...)
+		}
+	}
+	return true
+}
